@@ -30,20 +30,32 @@ def configs(tier):
         for sp in ssa_networks(n0, k1, k2):
             for g in grids:
                 for safe in (False, True):
-                    out.append(dict(spec=sp, grid=g, safe=safe, bound=bound, kind='run'))
+                    out.append(dict(spec=sp, grid=g, safe=safe, bound=bound, kind='run', route='sim'))
+                    if g == 'u3' or tier == 'thorough':
+                        out.append(dict(spec=sp, grid=g, safe=safe, bound=2, kind='run', route='entry'))
             for safe in (False, True):
                 out.append(dict(spec=sp, grid='u3', safe=safe, bound=2, kind='bfs'))
     return out
 
 
 def check_trace(c, impl, net, cfg, times, ref, x0=None, t0=0.0, first=[False]):
-    got = impl.run_ssa(ref['us'], times, x0, t0, dt=times[1] - times[0])
+    if cfg.get('route') == 'entry':
+        import warnings
+        from bioscrape.simulator import py_simulate_model
+        from ..util import Stream
+        with warnings.catch_warnings():
+            warnings.simplefilter('ignore')
+            with Stream(ref['us']) as st:
+                res = py_simulate_model(np.array(times, dtype=float), Model=impl.model, stochastic=True, safe=cfg['safe'], return_dataframe=False)
+        got = dict(rows=impl.rows(res.py_get_result()), consumed=st.consumed, overrun=st.overrun)
+    else:
+        got = impl.run_ssa(ref['us'], times, x0, t0, dt=times[1] - times[0])
     c.count('traces')
     c.count('evaluations')
     bad = e1.compare(ref, got)
     if bad:
         what, msg = bad
-        key = 'C05/%s/%s/%s' % ('safe' if cfg['safe'] else 'plain', cfg['spec']['name'], what)
+        key = 'C05/%s/%s/%s' % (('entry-' if cfg.get('route') == 'entry' else '') + ('safe' if cfg['safe'] else 'plain'), cfg['spec']['name'], what)
         c.violation(key, msg, dict(cfg=cfg, times=times, us=ref['us'], x0=x0, t0=t0,
                                    ref_rows=ref['rows'], impl_rows=got['rows']))
     return got
@@ -72,7 +84,7 @@ def run_config(c, cfg):
             nonlocal det_checked
             got = check_trace(c, impl, net, cfg, times, ref, x0, t0)
             if not det_checked:
-                got2 = impl.run_ssa(ref['us'], times, x0, t0, dt=times[1] - times[0])
+                got2 = check_trace(type(c)(), impl, net, cfg, times, ref, x0, t0)
                 if got2 != got:
                     c.harness_error('non-deterministic replay for %s' % sp['name'])
                 det_checked = True
@@ -87,7 +99,7 @@ def run_config(c, cfg):
     c.count('states', len(states))
     c.count('distinct_outcomes', len(outcomes))
     if len(outcomes) > 1:
-        c.nontrivial((sp['name'], cfg['grid'], cfg['safe'], cfg['kind'], str(sp['x0']), str([r.get('k') for r in sp['reactions']])))
+        c.nontrivial((sp['name'], cfg['grid'], cfg['safe'], cfg['kind'], cfg.get('route'), str(sp['x0']), str([r.get('k') for r in sp['reactions']])))
 
 
 def run(ctx):
@@ -97,7 +109,7 @@ def run(ctx):
     ctx.rule = ('E1: for every (network, rate/count alphabet member, grid, plain/safe interface) the choice tree of the '
                 'reference direct-method sampler is explored to the cost bound (every waiting-time draw: cross / just after '
                 'now / mid / just before the next grid time / far; every reaction draw: middle and both edges of every live '
-                'bucket) and every complete trace is replayed on SSASimulator under the scripted stream; plus the same '
+                'bucket) and every complete trace is replayed on SSASimulator (directly and through py_simulate_model(stochastic=True)) under the scripted stream; plus the same '
                 'exploration (bound 2) started from every reachable state, on and between grid times. states = distinct '
                 '(state, grid index) pairs visited by the reference; transitions = draws; a configuration is non-trivial '
                 'when its traces have more than one distinct outcome.')
